@@ -162,8 +162,19 @@ Handle(st, rb, perm, newId) ==
            IN IF c2[1].err THEN [none EXCEPT !.err = TRUE]
               ELSE [st |-> st3, err |-> FALSE, kok |-> c2[1].kok, wok |-> c2[1].wok, waited |-> FALSE]
 
+\* liveness fallback (HandleLivenessFallback, then the ordinary handling): our locked batch has been waiting too long; its
+\* orders and deposits are refunded out of the holding pool, the points ledger is replaced by the remote chain's, the locked
+\* batch is dropped, and the remote batch is handled as usual
+RECURSIVE Refund(_, _)
+Refund(st, items) == IF items = << >> THEN st
+                     ELSE Refund([st EXCEPT !.hold = @ - items[1].amt, !.bal[items[1].a] = @ + items[1].amt], Tail(items))
+HandleFallback(st, rb, perm, newId, rpts, rtot) ==
+   LET refunded == Refund(Refund(st, st.lck.orders), st.lck.deps)
+       st1 == [refunded EXCEPT !.pts = rpts, !.tot = rtot, !.lck = NoBatch]
+   IN Handle(st1, rb, perm, newId)
+
 \* ---- the two-chain system ----------------------------------------------------------------------------------------
-CONSTANTS Chains, Amounts, Pcts, MaxOps, MaxRot, Liq0, Bal0
+CONSTANTS Chains, Amounts, Pcts, MaxOps, MaxRot, Liq0, Bal0, EnableFallback
 VARIABLES S,        \* chain -> chain state
           seen,     \* chain -> the other chain's locked batch as last seen
           ops, nid, flags, last
@@ -201,7 +212,16 @@ Deliver(c, perm) ==
    /\ flags' = [kok |-> flags.kok /\ r.kok, wok |-> flags.wok /\ r.wok]
    /\ last' = [a |-> "deliver", c |-> c] /\ UNCHANGED <<seen, ops>>
 
+Fallback(c, perm) ==
+   LET o == Other(c)
+       r == HandleFallback(S[c], seen[c], perm, ToString(nid + 1), S[o].pts, S[o].tot) IN
+   /\ EnableFallback /\ nid < MaxRot /\ ~IsEmpty(S[c].lck) /\ ~r.err /\ ~r.waited
+   /\ S' = [S EXCEPT ![c] = r.st] /\ nid' = nid + 1
+   /\ flags' = [kok |-> flags.kok /\ r.kok, wok |-> flags.wok /\ r.wok]
+   /\ last' = [a |-> "fallback", c |-> c] /\ UNCHANGED <<seen, ops>>
+
 Next == \/ \E c \in Chains, a \in Acct, amt \in Amounts : Order(c, a, amt, 0) \/ Order(c, a, amt, amt) \/ Deposit(c, a, amt)
+        \/ \E c \in Chains : \E perm \in Perms(Len(seen[c].orders)) : Fallback(c, perm)
         \/ \E c \in Chains, a \in Acct, p \in Pcts : Withdraw(c, a, p)
         \/ \E c \in Chains : Sync(c) \/ \E perm \in Perms(Len(seen[c].orders)) : Deliver(c, perm)
 Spec == Init /\ [][Next]_vars
